@@ -166,23 +166,62 @@ def make_material(case, dim):
     raise ValueError(law)
 
 
+def apply_bc(simu, bn, U, A, c, dim, mode, rs):
+    """prescribe the linear displacement u = A x + c on the nodes bn.
+    arrays        : one call, components in the natural order, nodal arrays
+    perm-arrays   : one call, components (values AND unknown names) listed in a random permutation
+    perm-callables: the same with callables of (x, y, z) evaluated by the library at the node coordinates
+    callables     : natural order, callables
+    split         : two calls, each with a subset of the components (random split, random order)"""
+    unk = simu.Get_unknowns()
+    fcall = [(lambda x, y, z, m=m: np.c_[x, y, z][:, :dim] @ A[m] + c[m]) for m in range(dim)]
+    farr = [U[bn, m] for m in range(dim)]
+    order = list(range(dim))
+    if mode in ("perm-arrays", "perm-callables", "split"):
+        order = [int(i) for i in rs.permutation(dim)]
+        if order == list(range(dim)):
+            order = order[::-1]
+    vals = fcall if mode in ("callables", "perm-callables") else farr
+    if mode == "split":
+        k = 1 if dim == 2 else int(rs.randint(1, dim))
+        for part in (order[:k], order[k:]):
+            simu.add_dirichlet(bn, [(fcall if len(part) % 2 else farr)[m] for m in part], [unk[m] for m in part])
+    else:
+        simu.add_dirichlet(bn, [vals[m] for m in order], [unk[m] for m in order])
+
+
 def run_elastic(case, mesh):
     from EasyFEA import Simulations
     dim = mesh.dim
     mat = make_material(case, dim)
     rs = np.random.RandomState(case["field_seed"])
-    pre = {"moves_log": apply_moves(mesh, case.get("moves")), "spread_before": group_spread(mesh)}
+    A = rs.uniform(-1, 1, (dim, dim)) * 1e-2
+    craw = rs.uniform(-1, 1, dim) * 1e-2
+    bn = np.asarray(case["_boundary"], dtype=int) if case.get("_boundary") is not None else boundary_nodes(mesh)
+    pre = {}
+    simu = None
+    if case.get("sim_first"):
+        # the simulation exists, has a Dirichlet condition and has been solved BEFORE the mesh is moved in place
+        simu = Simulations.Elastic(mesh, mat)
+        X0 = np.asarray(mesh.coord, dtype=float)[:, :dim]
+        c0 = craw * float(np.ptp(X0, axis=0).max())
+        apply_bc(simu, bn, X0 @ A.T + c0, A, c0, dim, "callables", rs)
+        u0 = np.asarray(simu.Solve(), dtype=float).reshape(-1, dim)
+        pre["first_solve_err"] = float(np.abs(u0 - (X0 @ A.T + c0)).max() / np.abs(X0 @ A.T + c0).max())
+    pre.update({"moves_log": apply_moves(mesh, case.get("moves")), "spread_before": group_spread(mesh)})
     if case.get("queries"):
         pre["queries_log"] = readonly_queries(mesh, rs)
-    simu = Simulations.Elastic(mesh, mat)
+    if simu is None:
+        simu = Simulations.Elastic(mesh, mat)
+    else:
+        simu.Bc_Init()
     X = np.asarray(mesh.coord, dtype=float)[:, :dim]
     Lc = float(np.ptp(X, axis=0).max())
     # homogeneous in the length unit: dimensionless gradient, offset proportional to the size of the part
-    A = rs.uniform(-1, 1, (dim, dim)) * 1e-2
-    c = rs.uniform(-1, 1, dim) * 1e-2 * Lc
+    c = craw * Lc
     U = X @ A.T + c
-    bn = boundary_nodes(mesh)
     unk = simu.Get_unknowns()
+    bc_mode = "callables" if case.get("sim_first") else case.get("bc_mode", "arrays")
     if case.get("assemble_only"):
         used = np.unique(np.concatenate([np.asarray(g.connect).ravel() for g in mesh.Get_list_groupElem()]))
         interior = np.setdiff1d(used, bn)
@@ -199,7 +238,7 @@ def run_elastic(case, mesh):
                 "assemble_only": True, "ndof": int(mesh.Nn * dim), "pre": pre, "scale_u": float(np.abs(U).max()), "err_u_interior": 0.0,
                 "residual_interior": float(np.abs(r[idof]).max()), "residual_scale": float(np.abs(K).max() * np.abs(U).max()),
                 "energy": float(U.ravel() @ r), "energy_exact": float(th * measure_of(mesh) * (e @ C @ e))}
-    simu.add_dirichlet(bn, [U[bn, m] for m in range(dim)], unk)
+    apply_bc(simu, bn, U, A, c, dim, bc_mode, rs)
     u = np.asarray(simu.Solve(), dtype=float).reshape(-1, dim)
     used = np.unique(np.concatenate([np.asarray(g.connect).ravel() for g in mesh.Get_list_groupElem()]))
     interior = np.setdiff1d(used, bn)
@@ -308,10 +347,24 @@ def run_thermal(case, mesh):
     dim = mesh.dim
     p = case["params"]
     rs = np.random.RandomState(case["field_seed"])
-    pre = {"moves_log": apply_moves(mesh, case.get("moves")), "spread_before": group_spread(mesh)}
+    pre = {}
+    simu = None
+    if case.get("sim_first"):
+        simu = Simulations.Thermal(mesh, Models.Thermal(k=p["k"], c=p["c"], thickness=p.get("thickness", 1.0)))
+        Xf = np.asarray(mesh.coord, dtype=float)
+        Lf = float(np.ptp(Xf, axis=0).max())
+        bn0 = np.asarray(case["_boundary"], dtype=int) if case.get("_boundary") is not None else boundary_nodes(mesh)
+        g0 = np.array([0.7, -0.6, 0.5]) / Lf
+        simu.add_dirichlet(bn0, [lambda x, y, z: np.c_[x, y, z] @ g0 + 0.2], ["t"])
+        t0 = np.asarray(simu.Solve(), dtype=float).ravel()
+        pre["first_solve_err"] = float(np.abs(t0 - (Xf @ g0 + 0.2)).max())
+    pre.update({"moves_log": apply_moves(mesh, case.get("moves")), "spread_before": group_spread(mesh)})
     if case.get("queries"):
         pre["queries_log"] = readonly_queries(mesh, rs)
-    simu = Simulations.Thermal(mesh, Models.Thermal(k=p["k"], c=p["c"], thickness=p.get("thickness", 1.0)))
+    if simu is None:
+        simu = Simulations.Thermal(mesh, Models.Thermal(k=p["k"], c=p["c"], thickness=p.get("thickness", 1.0)))
+    else:
+        simu.Bc_Init()
     X3 = np.asarray(mesh.coord, dtype=float)
     Lc = float(np.ptp(X3, axis=0).max())
     a3 = np.zeros(3)
@@ -326,7 +379,11 @@ def run_thermal(case, mesh):
     if case.get("assemble_only"):
         t = T.copy()                     # no solve: only the assembled operator is examined (residual below)
     else:
-        simu.add_dirichlet(bn, [T[bn]], ["t"])
+        if case.get("sim_first") or case.get("bc_mode") == "callables":
+            xm, gT = X3.mean(axis=0), a3 / Lc
+            simu.add_dirichlet(bn, [lambda x, y, z: (np.c_[x, y, z] - xm) @ gT + 0.37], ["t"])
+        else:
+            simu.add_dirichlet(bn, [T[bn]], ["t"])
         t = np.asarray(simu.Solve(), dtype=float).ravel()
     K = simu.Get_K_C_M_F()[0]
     r = K @ T
@@ -455,7 +512,7 @@ def run_case(case):
         if case["kind"] == "grid":
             mesh, bn = grid_mesh(case)
             case = dict(case, _boundary=bn.tolist())
-            return run_thermal(case, mesh)
+            return run_elastic(case, mesh) if case["phys"] == "elastic" else run_thermal(case, mesh)
         mesh = mixed_mesh(case) if case["kind"] == "mixed" else gmsh_mesh(case)
         return run_elastic(case, mesh) if case["phys"] == "elastic" else run_thermal(case, mesh)
     except Exception as ex:
